@@ -1255,7 +1255,7 @@ int driver_main(int argc, char** argv, const Engine& e) {
       uint64_t n_in_proc = 0;
       signal(SIGALRM, SIG_DFL);
       for (uint64_t idx = s->next_idx; idx < (uint64_t)runs; idx += workers) {
-        if ((n_in_proc & 31) == 0) alarm(25); // watchdog: 32 runs that take 25 s mean one of them hangs
+        if ((n_in_proc & 31) == 0) alarm(e.watchdog_s); // watchdog: 32 runs that take this long mean one of them hangs
         if ((n_in_proc++ & 15) == 0 && wall_now() - t0 > cap_s) {
           s->capped = 1;
           break;
